@@ -1,3 +1,3 @@
 From Coq Require Import ExtrOcamlBasic.
-From ChibiV Require Import Common.ExtractBase C15.Table C15.Obj C15.Graph C15.Run.
-Extraction "model.ml" ext_base obj_hist map_hist q_equal_bound q_equal q_eqv q_hash q_string_hash q_geq q_gmodel q_gtop.
+From ChibiV Require Import Common.ExtractBase C15.Table C15.Obj C15.Graph C15.Run C15.ChainRun.
+Extraction "model.ml" ext_base obj_hist map_hist q_equal_bound q_equal q_eqv q_hash q_string_hash q_geq q_gmodel q_gtop q_chain_delete q_regrow_relink q_regrow_cells.
